@@ -259,6 +259,8 @@ class VerifyResponder:
             out += [(t, v) for t, v in honest if t not in (T_STATE, T_ERROR)]
         if mut.get("error_first"):
             out = [x for x in out if x[0] == T_ERROR] + [x for x in out if x[0] != T_ERROR]
+        if mut.get("foreign_first"):  # a field the reply is not expected to carry, ahead of everything else
+            out = [(T_ID, b"unexpected")] + out
         return out
 
 
